@@ -142,6 +142,8 @@ def checksig(
     if verify_witness_pubkeytype:
         if pair_blob[0] not in (2, 3) or len(pair_blob) != 33:
             raise ScriptError("uncompressed key in witness", errno.WITNESS_PUBKEYTYPE)
+    if sig_pair is None:
+        return False
     try:
         public_pair = sec_to_public_pair(pair_blob, generator, strict=verify_strict)
     except (ValueError, EncodingError):
@@ -175,7 +177,9 @@ def checksigs(vm: Any, sig_blobs: list[bytes], public_pair_blobs: list[bytes]) -
                 sig_blob, flags, vm
             )
         except (der.UnexpectedDER, ValueError):
-            public_pair_blobs = []
+            # an empty or undecodable signature matches no key, but the
+            # encoding of each key it is tried against is still checked
+            sig_pair, signature_type = None, None  # type: ignore[assignment]
         while len(sig_blobs_remaining) < len(public_pair_blobs):
             pair_blob = public_pair_blobs.pop()
             if checksig(
